@@ -310,7 +310,7 @@ def run(tier: str, only=None) -> core.Result:
                         for tr in (False, True):
                             cfgs.append({"list": sup, "pref": pref, "answer": ai, "when": "now", "distractor": False,
                                          "tracked": tr, "write": "unbuffered-stall", "stall": stall})
-    out = explorer.explore(RUN, cfgs)
+    out = explorer.explore(RUN, cfgs, fidelity=True)
     sched.absorb(res, f"grid-lists<={2 if tier == 'quick' else 3}", RUN, out, cfgs)
     res.coverage["exhaustive"] = True
     res.coverage["rule"] = (
